@@ -268,12 +268,7 @@ func (in *interp) gc(o Op) string {
 	if !in.c.GC || len(in.ws) > 0 {
 		return "nogc"
 	}
-	switch ((o.N % 3) + 3) % 3 {
-	case 0:
-		time.Sleep(gcInterval)
-		synctest.Wait()
-		in.res.class("gc_time_advance")
-	case 1:
+	release := func() {
 		parked := in.gcParkedA.Load()
 		select {
 		case in.gate <- struct{}{}:
@@ -289,12 +284,25 @@ func (in *interp) gc(o Op) string {
 				}
 			}
 		}
-	case 2:
+	}
+	switch ((o.N % 3) + 3) % 3 {
+	case 0:
+		// request a round and let the collector scan; it parks at the gate
+		// (between its lock-free scan and its write transaction) if it found work
 		in.db.VerifTriggerGC()
+		time.Sleep(gcInterval)
 		synctest.Wait()
+		in.res.class("gc_time_advance")
 		if in.gcParkedA.Load() {
 			in.res.class("gc_parked_with_work")
 		}
+	case 1:
+		release()
+	case 2:
+		in.db.VerifTriggerGC()
+		time.Sleep(gcInterval)
+		synctest.Wait()
+		release()
 	}
 	in.checkGraveyard("after GC op")
 	return "gc"
@@ -302,6 +310,11 @@ func (in *interp) gc(o Op) string {
 
 // checkGraveyard: C08 safety bounds on the number of retained deletions.
 func (in *interp) checkGraveyard(when string) {
+	if in.own != "C08" {
+		// These bounds do not feed the model; other properties' runs go on so
+		// that e.g. C07 sees the consequence (a lost deletion) itself.
+		return
+	}
 	rtxn := in.db.ReadTxn()
 	for t, tbl := range in.tbls {
 		ts := in.cur.tables[t]
@@ -370,7 +383,7 @@ func (in *interp) finishIterators() {
 		synctest.Wait()
 		rtxn = in.db.ReadTxn()
 		for t, tbl := range in.tbls {
-			if n := statedb.VerifNumDeletedObjects(rtxn, tbl); n != 0 {
+			if n := statedb.VerifNumDeletedObjects(rtxn, tbl); n != 0 && in.own == "C08" {
 				in.viol("C08", "not-collected", "all iterators of table t%d have caught up or are closed and 6 collection intervals have passed, but %d deleted objects are still retained", t, n)
 			}
 		}
